@@ -61,6 +61,13 @@ defvjp(nojvp, lambda ans, x: lambda g: g)
 HOOK = [None]     # optional scheduling hook, used by the thread harness (impl_c20.py)
 
 
+class Deadlock(Exception):
+    pass
+
+
+DEAD = [False]      # once one worker thread got stuck, later ones are given up on quickly
+
+
 class UserFail(Exception):
     pass
 
@@ -136,9 +143,12 @@ def ev(e, env):
                 box["v"] = ev(e[1], env)
             except BaseException as ex:      # noqa: B036 - re-raised in the calling thread
                 box["ex"] = ex
-        th = threading.Thread(target=work)
+        th = threading.Thread(target=work, daemon=True)
         th.start()
-        th.join()
+        th.join(2 if DEAD[0] else 30)
+        if th.is_alive():
+            DEAD[0] = True
+            raise Deadlock("a worker thread started inside a differentiation cannot finish while its creator waits for it")
         if "ex" in box:
             raise box["ex"]
         return box["v"]
